@@ -1,7 +1,7 @@
 """C09 - a sub-graph behaves the same inlined or nested, at any depth (differential + model + child clock checks)."""
 from __future__ import annotations
 import copy
-from .runner import Result, Violation
+from .runner import Result, Violation, scaled
 from .gen_core import gen_case
 from .prog import S
 from . import model as M
@@ -172,7 +172,7 @@ def check_quad(case, tr):
 
 
 def generate(rng, tier, seed):
-    n = 150 if tier == "quick" else 2500
+    n = scaled(150 if tier == "quick" else 2500)
     cases = []
     k = 0
     while len(cases) < 4 * n:
@@ -196,6 +196,8 @@ def generate(rng, tier, seed):
     cases += [gen_quad_case(rng, f"c09_{seed}_q{k}") for k in range(n // 3)]
     from .witness import f4_case
     cases.append(f4_case(f"c09_{seed}_witnessF4"))
+    from .witness import f22_case
+    cases.append(f22_case(f"c09_{seed}_witnessF22"))
     return cases
 
 
